@@ -152,6 +152,18 @@ func runC02(ci interface{}) Result {
 		r.Err, r.Kind = fmt.Errorf("%d write(s) reached the output after Wait had returned", tr.LateChunks), "late-output"
 		return r
 	}
+	// Bar.ID: the BarID option, else the creation order
+	for k, bar := range tr.AddOrder {
+		want := k
+		if sc.Bars[bar].ID != 0 {
+			want = sc.Bars[bar].ID
+			r.Classes = append(r.Classes, "bar-id-option")
+		}
+		if got, ok := tr.IDs[bar]; ok && got != want {
+			r.Err, r.Kind = fmt.Errorf("bar %d (added %d-th, BarID option %d) reports ID()=%d, want %d", bar, k, sc.Bars[bar].ID, got, want), "bar-id"
+			return r
+		}
+	}
 	if tr.CancelSeq != 0 {
 		r.Classes = append(r.Classes, "done-inside-history")
 	}
